@@ -591,7 +591,9 @@ class _VersionIndependentUnmarshaller:
                 )
                 co_exceptiontable = self.r_object(bytes_for_s=bytes_for_s)
             else:
-                co_lnotab = self.r_object(bytes_for_s=bytes_for_s)
+                # The line table is raw 8-bit data in every version: decoding it
+                # as text would merge bytes that happen to form UTF-8 sequences.
+                co_lnotab = self.r_object(bytes_for_s=True)
         else:
             # < 1.5 there is no lnotab, so no firstlineno.
             # SET_LINENO is used instead.
